@@ -116,6 +116,8 @@ func init() {
 	// outputs in directories that do not exist yet, different for the two files
 	reg("ok-export-newdir", "ok", func(p *project) { p.export = "newexp/sub/ops.json" })
 	reg("ok-both-newdirs", "ok", func(p *project) { p.export = "newexp/sub/ops.json"; p.gen = "newgen/generated.go" })
+	// the exported-operations file given by an ABSOLUTE path
+	reg("ok-export-abs", "ok", func(p *project) { p.export = "@DIR@/absexp/ops.json" })
 	reg("ok-go-literal", "ok", func(p *project) {
 		delete(p.files, "ops/b.graphql")
 		p.files["ops/q.go"] = "package ops\n\nconst q = `# @genqlient\nquery FromGo { kind }`\n"
@@ -344,7 +346,7 @@ func (r *runner) id(content string) int {
 	return v
 }
 
-var watched = []string{"generated.go", "ops.json", "blocker/generated.go", "keep.txt", "blocker", "newexp/sub/ops.json", "newgen/generated.go"}
+var watched = []string{"generated.go", "ops.json", "blocker/generated.go", "keep.txt", "blocker", "newexp/sub/ops.json", "newgen/generated.go", "absexp/ops.json"}
 
 func sentinel(name string) string {
 	return "// LAST GOOD OUTPUT of " + name + "\n" + strings.Repeat("// padding so that this file is longer than anything the generator emits\n", 400)
@@ -376,6 +378,7 @@ func (r *runner) runCase(c *Case) []*StepObs {
 			_ = os.WriteFile(full, []byte(content), 0o644)
 		}
 		cfgPath := filepath.Join(dir, "genqlient.yaml")
+		p.export = strings.ReplaceAll(p.export, "@DIR@", dir)
 		if p.cfgName != "" {
 			_ = os.WriteFile(cfgPath, []byte(p.configText()), 0o644)
 		}
@@ -413,6 +416,30 @@ func (r *runner) runCase(c *Case) []*StepObs {
 					for k, v := range oc.Files {
 						rel, _ := filepath.Rel(dir, k)
 						obs.Expected[rel] = string(v)
+					}
+					// WHERE the outputs go is the configuration's word, not the generator's: the two
+					// configured paths, resolved against the config's directory unless absolute
+					resolve := func(x string) string {
+						if filepath.IsAbs(x) {
+							return filepath.Clean(x)
+						}
+						return filepath.Join(dir, x)
+					}
+					want := map[string]bool{resolve(p.gen): true}
+					if p.export != "" {
+						want[resolve(p.export)] = true
+					}
+					for k := range oc.Files {
+						if !want[filepath.Clean(k)] {
+							obs.Fails = append(obs.Fails, core.Failure{Case: fmt.Sprintf("%s_%d", c.ID, si), Class: "C20/success-writes-elsewhere",
+								What: fmt.Sprintf("variant %s: the generator's output is destined for %s, which is not a configured output path %v", st.Variant, k, core.SortedKeysB(want)), Replay: c})
+						}
+					}
+					for w := range want {
+						if _, ok := oc.Files[w]; !ok {
+							obs.Fails = append(obs.Fails, core.Failure{Case: fmt.Sprintf("%s_%d", c.ID, si), Class: "C20/success-writes-elsewhere",
+								What: fmt.Sprintf("variant %s: nothing is written to the configured output path %s", st.Variant, w), Replay: c})
+						}
 					}
 				}
 			}
@@ -622,6 +649,7 @@ func genCases(rng *core.Rng, tier string) []*Case {
 	add(false, "ok-short", "ok-long", "ok-mid", "ok-go-literal")
 	add(false, "ok-export-newdir", "ok-long")
 	add(true, "ok-both-newdirs")
+	add(false, "ok-export-abs", "ok-short")
 	add(false, "ok-long", "fs-gen-is-dir", "ok-short")
 	add(true, "fs-parent-is-file")
 	add(false, "fs-gen-is-dir")
